@@ -151,6 +151,8 @@ WRAP = {
     "plain": lambda s: s,
     "if": lambda s: "if True:\n" + ind(s),
     "try": lambda s: "try:\n" + ind(s) + "except Exception:\n    pass\n",
+    "trystar": lambda s: "try:\n" + ind(s) + "except* Exception:\n    pass\n",
+    "while": lambda s: "_n = 0\nwhile _n < 1:\n" + ind("_n += 1\n" + s),
     "with": lambda s: "import contextlib\nwith contextlib.suppress(Exception):\n" + ind(s),
     "for": lambda s: "for _i in (1,):\n" + ind(s),
     "main": lambda s: "if __name__ == '__main__':\n" + ind(s),
@@ -253,24 +255,25 @@ def build_program(scope, k1, k2, w1, doc):
 
 
 NK = len(SKEYS)
+NW = len(WKEYS)
 
 
 @harness(
     parts=lambda: [[sc, i] for sc in range(2) for i in range(NK)], timeout=(240, 1800), cls="E", tracing="concrete-after-choice", twin="first",
     code=["pydoctor.astbuilder.ModuleVistor.visit_If/visit_ClassDef/_handleFunctionDef/_handleOldSchoolMethodDecoration/_handlePropertyDef/_handleAssignment*/visit_Expr/visit_Try/visit_With/visit_For",
           "pydoctor.astutils.get_docstring_node/extract_docstring/NodeVisitor.get_children", "pydoctor.model.is_exception/defaultPostProcess"],
-    bounds={"quick": "two-statement programs: 19 statement kinds (def, async def, a method wrapped twice in the old style, a decorated static method wrapped again, exception class with a mixin listed after the builtin exception, exception class through an intermediate class, classmethod, staticmethod, property, old-style staticmethod()/classmethod() wrapping, assignment, annotated assignment, annotation only, class, exception class, def nested in a def, tuple assignment, class with nested class) for each of the two statements x 8 wrappers of the first (plain, if, try, with, for, `if __name__ == '__main__'`, `if __name__ != '__main__'`, `if not (__name__ == '__main__')`) x 7 docstring layouts (none, one line, multi-line with relative indentation, leading blank line, trailing blanks, over-indented first text line, closing quotes deeper than the text) x module / class scope",
+    bounds={"quick": "two-statement programs: 19 statement kinds (def, async def, a method wrapped twice in the old style, a decorated static method wrapped again, exception class with a mixin listed after the builtin exception, exception class through an intermediate class, classmethod, staticmethod, property, old-style staticmethod()/classmethod() wrapping, assignment, annotated assignment, annotation only, class, exception class, def nested in a def, tuple assignment, class with nested class) for each of the two statements x 10 wrappers of the first (plain, if, try, try with except*, while, with, for, `if __name__ == '__main__'`, `if __name__ != '__main__'`, `if not (__name__ == '__main__')`) x 7 docstring layouts (none, one line, multi-line with relative indentation, leading blank line, trailing blanks, over-indented first text line, closing quotes deeper than the text) x module / class scope",
             "thorough": "same"},
     outside="multi-module packages (C04/C07), metaclasses, __slots__, conditional redefinition (C02), except/finally bodies",
 )
 def h_definitions(k2: int, w1: int, doc: int) -> bool:
     """
-    pre: 0 <= k2 < NK and 0 <= w1 <= 7 and 0 <= doc <= 6
+    pre: 0 <= k2 < NK and 0 <= w1 < NW and 0 <= doc <= 6
     post: _
     """
     sc, k1 = PART if PART is not None else [1, 0]
     k2 = pick(k2, 0, NK - 1)
-    w1 = pick(w1, 0, 7)
+    w1 = pick(w1, 0, NW - 1)
     doc = pick(doc, 0, 6)
     with NoTracing():
         src = build_program(["module", "class"][sc], SKEYS[k1], SKEYS[k2], WKEYS[w1], DOCKEYS[doc])
